@@ -4,6 +4,11 @@ import (
 	"math/rand"
 	"strconv"
 	"strings"
+	"time"
+
+	"gircverif/drive"
+
+	"github.com/lrstanley/girc"
 )
 
 // Hostile generator: every command the state handlers react to, with too few / too many
@@ -15,8 +20,116 @@ var (
 	hostNicks = []string{"me", "ME", "alice", "Alice", "bob", "b[o]b", "B{O}B", "carol", "x", "nick^", "NICK~", "café", "a-b", "0day", "", "al ice"}
 	hostChans = []string{"#chan", "#CHAN", "#c[1]", "#C{1}", "&local", "#x", "+m", "!ABCDEname", "notachan", "", "#a b", "#caf\xc3\xa9"}
 	hostCmds  = []string{"JOIN", "PART", "KICK", "QUIT", "NICK", "353", "MODE", "324", "352", "354", "TOPIC", "332", "004", "005", "375", "372",
-		"CHGHOST", "AWAY", "ACCOUNT", "001", "PRIVMSG", "NOTICE", "PING", "433", "CAP", "AUTHENTICATE", "900", "903", "904", "366", "ERRORX"}
+		"CHGHOST", "AWAY", "ACCOUNT", "001", "PRIVMSG", "NOTICE", "PING", "PONG", "433", "436", "437", "CAP", "AUTHENTICATE", "900", "902", "903", "904", "905", "906", "907", "908", "366", "ERRORX"}
+	ctcpTags = []string{"VERSION", "PING", "PONG", "TIME", "FINGER", "SOURCE", "ACTION", "CLIENTINFO", "X1", "version", "", "A B"}
+	capWords = []string{"multi-prefix", "sasl", "account-tag", "account-notify", "away-notify", "chghost", "extended-join", "userhost-in-names", "message-tags", "server-time", "sasl=PLAIN,EXTERNAL", "unknown-cap", "=", "a=b=c", "cap-notify", "batch"}
 )
+
+// cmdShapes: every command an internal handler is registered for (builtin.go registerBuiltins),
+// with a parameter list that passes the handler's guards; the fixed enumeration sends each
+// with 0 .. n+2 parameters, with and without a source.
+var cmdShapes = []struct {
+	cmd    string
+	params []string
+}{
+	{"001", []string{"me", "Welcome to the network"}},
+	{"PING", []string{"tok"}},
+	{"PONG", []string{"srv", "tok"}},
+	{"JOIN", []string{"#new", "acct", "Real Name"}},
+	{"JOIN", []string{"#chan", "*", "Other Name"}},
+	{"005", []string{"me", "EXCEPTS=", "=x", "NETWORK=", "are supported by this server"}},
+	{"PART", []string{"#chan", "bye now"}},
+	{"KICK", []string{"#chan", "alice", "go away"}},
+	{"QUIT", []string{"gone fishing"}},
+	{"NICK", []string{"bob"}},
+	{"353", []string{"me", "=", "#chan", "@alice +bob dave!d@h.example"}},
+	{"MODE", []string{"#chan", "+o-v", "alice", "bob"}},
+	{"324", []string{"me", "#chan", "+ntk", "key"}},
+	{"324", []string{"me", "#chan", "Caf\xc3\xa9", "x"}},
+	{"MODE", []string{"#chan", "+\xe9\x80-\x80\xff", "alice"}},
+	{"352", []string{"me", "#chan", "id", "host", "srv", "alice", "H", "0 Real Name"}},
+	{"354", []string{"me", "1", "#chan", "id", "host", "alice", "acct", "Real Name"}},
+	{"TOPIC", []string{"#chan", "new topic"}},
+	{"332", []string{"me", "#chan", "the topic"}},
+	{"004", []string{"me", "srv.example", "ircd-1", "iow", "biklmnopstv"}},
+	{"005", []string{"me", "CHANMODES=b,k,l,imnpst", "PREFIX=(ov)@+", "NICKLEN=9", "are supported by this server"}},
+	{"375", []string{"me", "- srv message of the day -"}},
+	{"372", []string{"me", "- a line"}},
+	{"PRIVMSG", []string{"me", "\x01VERSION\x01"}},
+	{"NOTICE", []string{"me", "\x01PING 12345\x01"}},
+	{"PRIVMSG", []string{"#chan", "\x01FINGER\x01"}},
+	{"CAP", []string{"*", "LS", "multi-prefix sasl account-tag"}},
+	{"CAP", []string{"*", "ACK", "multi-prefix account-tag"}},
+	{"CAP", []string{"*", "NAK", "multi-prefix"}},
+	{"CAP", []string{"*", "DEL", "multi-prefix"}},
+	{"CAP", []string{"*", "NEW", "away-notify"}},
+	{"CAP", []string{"*", "LS", "*", "multi-prefix"}},
+	{"CHGHOST", []string{"newid", "new.host"}},
+	{"AWAY", []string{"be right back"}},
+	{"ACCOUNT", []string{"acct"}},
+	{"AUTHENTICATE", []string{"+"}},
+	{"903", []string{"me", "SASL authentication successful"}},
+	{"902", []string{"me", "You must use a nick assigned to you"}},
+	{"904", []string{"me", "SASL authentication failed"}},
+	{"905", []string{"me", "SASL message too long"}},
+	{"906", []string{"me", "SASL authentication aborted"}},
+	{"907", []string{"me", "You have already authenticated"}},
+	{"908", []string{"me", "PLAIN,EXTERNAL", "are available SASL mechanisms"}},
+	{"433", []string{"*", "me", "Nickname is already in use"}},
+	{"436", []string{"*", "me", "Nickname collision"}},
+	{"437", []string{"*", "me", "Nick/channel is temporarily unavailable"}},
+}
+
+func joinedPrefix() []Ev {
+	return []Ev{{HasSrc: true, Name: "srv", Cmd: "001", Params: []string{"me", "welcome"}},
+		{HasSrc: true, Name: "me", Ident: "u", Host: "h", Cmd: "JOIN", Params: []string{"#chan"}},
+		{HasSrc: true, Name: "srv", Cmd: "353", Params: []string{"me", "=", "#chan", "me @alice +bob carol"}},
+		{HasSrc: true, Name: "me", Ident: "u", Host: "h", Cmd: "JOIN", Params: []string{"#c[1]"}},
+		{HasSrc: true, Name: "srv", Cmd: "353", Params: []string{"me", "=", "#c[1]", "me alice b[o]b"}}}
+}
+
+// shapeHistories: for every shape and every kind of source (none, a tracked user, ourselves,
+// a stranger, with an account tag) one history that sends the command with 0 .. n+2 parameters.
+func shapeHistories(route string) []Case {
+	var out []Case
+	type srcKind struct {
+		has        bool
+		name       string
+		acct       bool
+		fromJoined bool
+	}
+	kinds := []srcKind{{false, "", false, true}, {true, "alice", false, true}, {true, "ME", false, true}, {true, "zed", false, true},
+		{false, "", true, true}, {true, "b{o}b", true, true}, {true, "alice", false, false}}
+	for _, sh := range cmdShapes {
+		for _, k := range kinds {
+			var evs []Ev
+			if k.fromJoined {
+				evs = joinedPrefix()
+			}
+			for n := 0; n <= len(sh.params)+2; n++ {
+				e := Ev{Cmd: sh.cmd, HasSrc: k.has, Name: k.name, HasAcct: k.acct, Acct: "tagacct"}
+				if k.has {
+					e.Ident, e.Host = "id", "h.example"
+				}
+				for i := 0; i < n; i++ {
+					if i < len(sh.params) {
+						e.Params = append(e.Params, sh.params[i])
+					} else {
+						e.Params = append(e.Params, "extra"+strconv.Itoa(i-len(sh.params)))
+					}
+				}
+				for i, p := range e.Params { // only the last parameter may hold spaces
+					if i < len(e.Params)-1 && strings.ContainsAny(p, " ") {
+						e.Params[i] = strings.Fields(p)[0]
+					}
+				}
+				evs = append(evs, e)
+			}
+			out = append(out, EncodeHistory(route, "me", "user", evs))
+		}
+	}
+	return out
+}
 
 func caseVariant(r *rand.Rand, s string) string {
 	b := []byte(s)
@@ -45,7 +158,7 @@ func hostileParam(r *rand.Rand) string {
 	case 3, 4, 5:
 		return caseVariant(r, hostChans[r.Intn(len(hostChans))])
 	case 6:
-		return Pick(r, "+o", "-o", "+v", "+ntk", "-k", "+l", "+b", "+ov-v", "+q", "-", "+", "+kl", "ntl")
+		return Pick(r, "+o", "-o", "+v", "+ntk", "-k", "+l", "+b", "+ov-v", "+q", "-", "+", "+kl", "ntl", "Caf\xc3\xa9", "+\xc3\xa9t") // valid UTF-8 only: PING and JOIN echo a parameter on the wire, where invalid bytes are dropped
 	case 7:
 		return Pick(r, "*", "1", "0", "key", "5", "H", "G*", "=", "@", "acct", "%tacuhnr,1")
 	case 8:
@@ -82,8 +195,8 @@ func hostileEvent(r *rand.Rand) Ev {
 		e.Params = append(e.Params, hostileParam(r))
 	}
 	// shape some events so that they get past the first guards
-	switch r.Intn(4) {
-	case 0:
+	switch r.Intn(5) {
+	case 0, 1:
 		switch e.Cmd {
 		case "353":
 			e.Params = []string{"me", "=", caseVariant(r, hostChans[r.Intn(5)]), Pick(r, "me @alice +bob", "@+alice!a@h bob!b@h2 ~&carol", "ME alice ALICE", "x@ @y!z +", "b[o]b B{O}B")}
@@ -99,12 +212,56 @@ func hostileEvent(r *rand.Rand) Ev {
 			}
 			e.Params = append(e.Params, "are supported by this server")
 		case "MODE":
-			e.Params = []string{caseVariant(r, hostChans[r.Intn(5)]), Pick(r, "+o", "-o", "+ov", "+ntk", "-k", "+l", "+b", "-b+v", "+qaohv"), hostNicks[r.Intn(8)], hostNicks[r.Intn(8)]}
+			e.Params = []string{caseVariant(r, hostChans[r.Intn(5)]), Pick(r, "+o", "-o", "+ov", "+ntk", "-k", "+l", "+b", "-b+v", "+qaohv", "+n\xe9", "Caf\xc3\xa9", "+\xff\x80-\xff"), hostNicks[r.Intn(8)], hostNicks[r.Intn(8)]}
 		case "JOIN":
 			e.Params = []string{caseVariant(r, hostChans[r.Intn(6)])}
 		case "NICK":
 			e.Params = []string{caseVariant(r, hostNicks[r.Intn(len(hostNicks))])}
+		case "KICK":
+			e.Params = []string{caseVariant(r, hostChans[r.Intn(5)]), caseVariant(r, hostNicks[r.Intn(8)]), "bye"}
+		case "PART":
+			e.Params = []string{caseVariant(r, hostChans[r.Intn(5)])}
+		case "PRIVMSG", "NOTICE":
+			// CTCP requests and replies, well-formed and not, with and without a source
+			body := ctcpTags[r.Intn(len(ctcpTags))]
+			if r.Intn(2) == 0 {
+				body += " " + Pick(r, "12345", "some text", "", "\x01")
+			}
+			text := "\x01" + body + "\x01"
+			switch r.Intn(8) {
+			case 0:
+				text = "\x01" + body // unterminated
+			case 1:
+				text = "\x01\x01"
+			case 2:
+				text = "\x01 \x01"
+			}
+			e.Params = []string{Pick(r, "me", "#chan", "ME", "#nowhere"), text}
+		case "CAP":
+			n := r.Intn(4)
+			var ws []string
+			for i := 0; i < n; i++ {
+				ws = append(ws, capWords[r.Intn(len(capWords))])
+			}
+			e.Params = []string{Pick(r, "*", "me"), Pick(r, "LS", "ACK", "NAK", "DEL", "NEW", "LIST", "ls", "END")}
+			if r.Intn(4) == 0 {
+				e.Params = append(e.Params, "*")
+			}
+			if r.Intn(5) != 0 {
+				e.Params = append(e.Params, strings.Join(ws, " "))
+			}
+		case "AUTHENTICATE":
+			e.Params = []string{Pick(r, "+", "PLAIN", "*", "", "Zm9v", "+ +")}
+			if r.Intn(5) == 0 {
+				e.Params = append(e.Params, "+")
+			}
 		}
+	}
+	if e.Cmd == "JOIN" && len(e.Params) > 0 {
+		// the channel is echoed as a middle parameter of WHO/MODE, where a ':' at the start of
+		// a word cannot be told from the trailing marker when the harness reads the line back
+		p := strings.ReplaceAll(" "+e.Params[0], " :", " ;")
+		e.Params[0] = p[1:]
 	}
 	for i, p := range e.Params { // parameters a parser can produce: only the last may hold spaces or be empty
 		if i < len(e.Params)-1 && (p == "" || strings.ContainsAny(p, " ") || p[0] == ':') {
@@ -137,19 +294,19 @@ func historySig(evs []Ev, obs string) string {
 	return "cmds" + strconv.Itoa(len(seen)/4*4) + "/ch" + b(nch) + "/us" + b(nus)
 }
 
+// slowFailures counts wedge / no-answer verdicts of this process (each takes seconds to reach).
+var slowFailures int
+
 func init() {
 	Register(&Suite{
-		Name: "state.hostile",
-		Prop: []string{"C05"},
+		Name:  "state.hostile",
+		Prop:  []string{"C05"},
+		Fixed: func() []Case { return shapeHistories("feed") },
 		Gen: func(r *rand.Rand) Case {
 			n := 3 + r.Intn(40)
 			evs := []Ev{}
 			if r.Intn(4) != 0 { // usually start from a joined state so that there is something to corrupt
-				evs = append(evs, Ev{HasSrc: true, Name: "srv", Cmd: "001", Params: []string{"me", "welcome"}},
-					Ev{HasSrc: true, Name: "me", Ident: "u", Host: "h", Cmd: "JOIN", Params: []string{"#chan"}},
-					Ev{HasSrc: true, Name: "srv", Cmd: "353", Params: []string{"me", "=", "#chan", "me @alice +bob carol"}},
-					Ev{HasSrc: true, Name: "me", Ident: "u", Host: "h", Cmd: "JOIN", Params: []string{"#c[1]"}},
-					Ev{HasSrc: true, Name: "srv", Cmd: "353", Params: []string{"me", "=", "#c[1]", "me alice b[o]b"}})
+				evs = append(evs, joinedPrefix()...)
 			}
 			for i := 0; i < n; i++ {
 				evs = append(evs, hostileEvent(r))
@@ -161,9 +318,163 @@ func init() {
 			if !ok {
 				return Result{Obs: "?bad-args", Sig: ""}
 			}
+			if slowFailures >= 8 {
+				// every such verdict costs seconds; a run that has seen eight of them has its answer
+				return Result{Obs: "?skipped-after-repeated-wedges", Sig: ""}
+			}
 			obs, oracle, ss := RunHistory(nick, user, evs)
-			ss.Stop()
+			if obs == "WEDGED" || obs == "NOPONG" {
+				slowFailures++ // the client is abandoned: stopping it could block on the leaked lock
+			} else {
+				ss.Stop()
+			}
 			return Result{Obs: obs, Oracle: oracle, Sig: historySig(evs, obs)}
+		},
+	})
+
+	// The connected route: the same kind of history is written to the socket of a
+	// MockConnect'ed client; afterwards the client must answer a PING or Connect must have
+	// returned an error. Every session runs in a process of its own: a panic in a bare
+	// goroutine (which no RecoverFunc can absorb) is reported with the history as replay.
+	// Routes: "conn" (RecoverFunc records), "conn-norecover" (a handler panic kills the
+	// process, as without RecoverFunc), "conn-sasl" (SASL PLAIN configured: a failed or
+	// unexpected SASL exchange makes the client disconnect with an error).
+	liveDirect := func(c Case) Result {
+		route, nick, user, evs, ok := DecodeHistory(c)
+		if !ok {
+			return Result{Obs: "?bad-args", Sig: ""}
+		}
+		opt := ConnOptions{SASL: route == "conn-sasl", NoRecover: route == "conn-norecover"}
+		obs, oracle := RunConnected(nick, user, evs, opt)
+		sig := route + "/"
+		if strings.HasPrefix(obs, "n=") {
+			sig += historySig(evs, obs)
+		} else {
+			sig += strings.ToLower(obs)
+		}
+		return Result{Obs: obs, Oracle: oracle, Sig: sig}
+	}
+	// Finding handler-injected-error-self-blocks (NOT in conf/C05.json until it is repaired or
+	// recorded): SASL configured, a user handler that takes 3 ms per PRIVMSG, and the whole
+	// history written in one burst, so that the receive queue (25) is full when the handler of
+	// the failing SASL reply queues its ERROR. The client must still disconnect promptly.
+	stallDirect := func(c Case) Result {
+		_, nick, user, evs, ok := DecodeHistory(c)
+		if !ok {
+			return Result{Obs: "?bad-args", Sig: ""}
+		}
+		cfg := drive.BaseConfig()
+		cfg.Nick, cfg.User = nick, user
+		cfg.SASL = &girc.SASLPlain{User: "acct", Pass: "secret"}
+		ss := drive.Start(cfg)
+		ss.C.Handlers.Add(girc.PRIVMSG, func(c *girc.Client, e girc.Event) { time.Sleep(3 * time.Millisecond) })
+		var sb strings.Builder
+		for _, e := range evs {
+			line, lok := e.Line()
+			if !lok {
+				return Result{Obs: "?unrenderable"}
+			}
+			sb.WriteString(line + "\r\n")
+		}
+		go ss.Peer.Write([]byte(sb.String()))
+		select {
+		case err := <-ss.Done:
+			ss.Done <- err
+			ss.Stop()
+			if err == nil {
+				return Result{Obs: "disconnected-nil", Oracle: "liveness: Connect returned without an error", Sig: "burst/nil"}
+			}
+			return Result{Obs: "disconnected", Sig: "burst/disconnected"}
+		case <-time.After(12 * time.Second):
+			return Result{Obs: "STALLED", Oracle: "stall: 12 s after a failed SASL exchange the client has neither disconnected nor moved on (the handler blocks on its own receive queue; the queued ERROR is dropped after 30 s)", Sig: "burst/stalled"}
+		}
+	}
+	Register(&Suite{
+		Name: "state.stall",
+		Prop: []string{"C05"},
+		Gen: func(r *rand.Rand) Case {
+			chat := func() Ev {
+				return Ev{HasSrc: true, Name: Pick(r, "alice", "bob", "zed"), Ident: "u", Host: "h", Cmd: "PRIVMSG", Params: []string{"#chan", "hello there"}}
+			}
+			evs := joinedPrefix()
+			for i := 2 + r.Intn(8); i > 0; i-- {
+				evs = append(evs, chat())
+			}
+			switch r.Intn(3) {
+			case 0:
+				evs = append(evs, Ev{HasSrc: true, Name: "srv", Cmd: Pick(r, "902", "904", "905", "906", "908"), Params: []string{"me", "SASL authentication failed"}})
+			case 1:
+				evs = append(evs, Ev{Cmd: "AUTHENTICATE", Params: []string{Pick(r, "PLAIN", "*", "x")}})
+			default:
+				evs = append(evs, Ev{HasSrc: true, Name: "srv", Cmd: "904", Params: []string{"me", "failed"}}, chat(), Ev{HasSrc: true, Name: "srv", Cmd: "906", Params: []string{"me", "aborted"}})
+			}
+			for i := 30 + r.Intn(30); i > 0; i-- {
+				evs = append(evs, chat())
+			}
+			return EncodeHistory("burst-sasl", "me", "user", evs)
+		},
+		Run: func(c Case) Result { return Isolated("state.stall", c, stallDirect) },
+	})
+	Register(&Suite{
+		Name: "state.liveness",
+		Prop: []string{"C05"},
+		Fixed: func() []Case {
+			// one-message crashes seen while reading the code, on the socket route
+			one := func(route string, e ...Ev) Case {
+				return EncodeHistory(route, "me", "user", append(joinedPrefix(), e...))
+			}
+			return []Case{
+				one("conn-norecover", Ev{Cmd: "352"}),
+				one("conn-norecover", Ev{Cmd: "353", Params: []string{"me", "="}}),
+				one("conn-norecover", Ev{Cmd: "CHGHOST", Params: []string{"a", "b"}}, Ev{Cmd: "AWAY", Params: []string{"x"}}, Ev{Cmd: "ACCOUNT", Params: []string{"x"}}),
+				one("conn-norecover", Ev{HasAcct: true, Acct: "x", Cmd: "PRIVMSG", Params: []string{"me", "hi"}}),
+				one("conn-norecover", Ev{Cmd: "AUTHENTICATE", Params: []string{"+"}}),
+				one("conn-norecover", Ev{Cmd: "PRIVMSG", Params: []string{"me", "\x01VERSION\x01"}}, Ev{Cmd: "PRIVMSG", Params: []string{"me", "\x01FINGER\x01"}},
+					Ev{Cmd: "PRIVMSG", Params: []string{"me", "\x01PING 1\x01"}}, Ev{Cmd: "PRIVMSG", Params: []string{"me", "\x01TIME\x01"}},
+					Ev{Cmd: "PRIVMSG", Params: []string{"me", "\x01SOURCE\x01"}}, Ev{Cmd: "PRIVMSG", Params: []string{"me", "\x01PONG\x01"}},
+					Ev{Cmd: "PRIVMSG", Params: []string{"me", "\x01UNKNOWN\x01"}}),
+				one("conn-norecover", Ev{HasSrc: true, Name: "alice", Cmd: "NICK", Params: []string{"bob"}}, Ev{HasSrc: true, Name: "bob", Cmd: "QUIT"},
+					Ev{HasSrc: true, Name: "me", Cmd: "PART", Params: []string{"#chan"}}, Ev{HasSrc: true, Name: "me", Cmd: "PART", Params: []string{"#c[1]"}}),
+				one("conn-sasl", Ev{Cmd: "AUTHENTICATE", Params: []string{"+"}}),
+				one("conn-sasl", Ev{Cmd: "AUTHENTICATE", Params: []string{"PLAIN"}}),
+				one("conn-sasl", Ev{Cmd: "904", Params: []string{"me", "failed"}}),
+				one("conn", Ev{HasSrc: true, Name: "srv", Cmd: "ERROR", Params: []string{"Closing link"}}),
+			}
+		},
+		Gen: func(r *rand.Rand) Case {
+			route := Pick(r, "conn", "conn", "conn-norecover", "conn-norecover", "conn-sasl")
+			n := 3 + r.Intn(40)
+			evs := []Ev{}
+			if r.Intn(4) != 0 {
+				evs = append(evs, joinedPrefix()...)
+			}
+			for len(evs) < n {
+				e := hostileEvent(r)
+				if r.Intn(300) == 0 {
+					e = Ev{HasSrc: r.Intn(2) == 0, Name: "srv", Cmd: "ERROR", Params: []string{"Closing link"}}
+				}
+				if e.Cmd == "CAP" && strings.Contains(strings.Join(e.Params, " "), "sts") {
+					continue // strict transport security is C10's subject
+				}
+				line, ok := e.Line()
+				if !ok {
+					continue
+				}
+				if back, pok := EvFromLine(line); pok {
+					evs = append(evs, back)
+				}
+			}
+			return EncodeHistory(route, "me", "user", evs)
+		},
+		Run: func(c Case) Result {
+			if slowFailures >= 8 {
+				return Result{Obs: "?skipped-after-repeated-wedges", Sig: ""}
+			}
+			res := Isolated("state.liveness", c, liveDirect)
+			if res.Obs == "WEDGED" || res.Obs == "NOPONG" {
+				slowFailures++
+			}
+			return res
 		},
 	})
 }
